@@ -409,7 +409,7 @@ pub fn run_check(ctx: &mut Ctx) {
         ctx.health(false, "mos binary not built (MOS_BIN)");
         return;
     }
-    let n = ctx.tier.pick(4000, 100_000);
+    let n = ctx.tier.pick(8000, 150_000);
     ctx.campaign_parallel("clean-domain", n, 16, || strategy(false), prop, to_json);
     let n2 = ctx.tier.pick(600, 5_000);
     ctx.campaign_parallel("feature:single_segment_assigned_to_later_bank", n2, 8, || strategy(true), prop, to_json);
